@@ -311,9 +311,11 @@ func genComp(r *Rng, depth int) *gnode {
 	for t := range n.subs {
 		n.order = append(n.order, t)
 	}
-	sortFns[sortName](n.order)
+	// the generator's own notion of the order (reflayout.go), not the library's sort functions: the expected encodings
+	// built from it must not follow a change of the library
+	n.order = refSort(sortName, n.order)
 	if n.mode == "bmp" {
-		sortFns["ByInt"](n.order)
+		n.order = refSort("ByInt", n.order)
 	}
 	// term: subfields listed in a shuffled order (the spec is a map)
 	keys := append([]string(nil), n.order...)
